@@ -206,6 +206,65 @@ theorem refused_after_rst (k : Kernel) (fd : Nat) (s : Socket) (t : Tcb) (peer :
   rw [Kernel.getSock_setSock_self k fd _ (by rw [hs]; rfl)]
   simp [Tcb.abort, hto]
 
+/-- Backlog: a SYN that reaches a listener creates a half-open child (and a SYN-ACK goes out)
+    exactly when half-open children of that local address plus the accept queue are below the
+    backlog; otherwise the SYN is dropped without any trace (the client retransmits). -/
+theorem syn_admitted_iff_room (k : Kernel) (lfd : Nat) (l r : SockAddr) (s : Seg) (ls : Socket) (li : Listen)
+    (hs : k.getSock lfd = some ls) (hl : ls.listen = some li) :
+    (k.countChildren lfd l + li.ready.length ≥ li.backlog → k.acceptSyn lfd l r s = k) ∧
+    (k.countChildren lfd l + li.ready.length < li.backlog →
+      (k.acceptSyn lfd l r s).nextId = k.nextId + 1 ∧
+      ∃ p, (k.acceptSyn lfd l r s).outbound = k.outbound ++ [p] ∧ p.seg.flags.syn = true ∧ p.seg.flags.ack = true ∧
+        p.seg.ack = wadd s.seq 1 ∧ p.dst = r.ip ∧ p.seg.dstPort = r.port) := by
+  constructor
+  · intro hfull
+    unfold Kernel.acceptSyn
+    simp [hs, hl, hfull]
+  · intro hroom
+    have : ¬ (k.countChildren lfd l + li.ready.length ≥ li.backlog) := by omega
+    have e1 : ∀ (k' : Kernel) (a b : SockAddr) (fd : Nat),
+        (k'.insertConnection a b fd).nextId = k'.nextId ∧ (k'.insertConnection a b fd).outbound = k'.outbound := by
+      intro k' a b fd; unfold Kernel.insertConnection; split <;> exact ⟨rfl, rfl⟩
+    have e2 : ∀ (k' : Kernel) (key : BindKey) (fd : Nat),
+        (k'.insertBinding key fd).nextId = k'.nextId ∧ (k'.insertBinding key fd).outbound = k'.outbound := by
+      intro k' key fd; unfold Kernel.insertBinding; split <;> exact ⟨rfl, rfl⟩
+    unfold Kernel.acceptSyn
+    simp only [hs, hl, this, if_false]
+    refine ⟨?_, ?_⟩
+    · show (Kernel.insertConnection _ l r _).nextId = k.nextId + 1
+      rw [(e1 _ _ _ _).1]
+      show (Kernel.insertBinding _ _ _).nextId = k.nextId + 1
+      rw [(e2 _ _ _).1]
+      rfl
+    · refine ⟨{ src := l.ip, dst := r.ip,
+                seg := { srcPort := l.port, dstPort := r.port,
+                         seq := (((k.insertSock { dgram := ls.dgram, v6 := ls.v6 }).1.insertBinding ⟨false, l.ip, l.port⟩
+                                  (k.insertSock { dgram := ls.dgram, v6 := ls.v6 }).2).initialSequence).2,
+                         ack := wadd s.seq 1, flags := { syn := true, ack := true }, window := defaultWindow,
+                         payload := [] } }, ?_, ?_, ?_, ?_, ?_, ?_⟩
+      · show (Kernel.insertConnection _ l r _).outbound ++ _ = k.outbound ++ _
+        rw [(e1 _ _ _ _).2]
+        show (Kernel.insertBinding _ _ _).outbound ++ _ = k.outbound ++ _
+        rw [(e2 _ _ _).2]
+        rfl
+      all_goals rfl
+
+/-- The SYN-ACK completes the client side: a `SynSent` socket becomes `Established`, acknowledges,
+    and the pending `connect` then resolves `Ok`. -/
+theorem synack_establishes (cfg : Cfg) (k : Kernel) (fd : Nat) (so : Socket) (t : Tcb) (l r peer : SockAddr) (s : Seg)
+    (hs : k.getSock fd = some so) (ht : so.tcb = some t) (hst : t.state = .synSent)
+    (hrst : s.flags.rst = false) (hsyn : s.flags.syn = true) (hack : s.flags.ack = true) :
+    ((Kernel.handleOnConnection cfg k fd l r s).pollConnect fd peer).2 = .ok () := by
+  unfold Kernel.handleOnConnection
+  simp only [hrst, Bool.false_eq_true, if_false, hs, ht, hst, hsyn, hack, Bool.and_self, if_true]
+  unfold Kernel.pollConnect
+  have hsome : (k.getSock fd).isSome = true := by rw [hs]; rfl
+  simp only [Kernel.emit]
+  have : ∀ (so' : Socket) (ob : List Packet), ({ (k.setSock fd so') with outbound := ob } : Kernel).getSock fd = some so' := by
+    intro so' ob
+    exact Kernel.getSock_setSock_self k fd so' hsome
+  rw [this]
+
 /-! ## Reclamation: full statement, witnesses, repaired variant -/
 
 /-- **Full reclamation statement** (C13, second sentence), on the model: for every op sequence, at
